@@ -50,6 +50,7 @@ EngineQuirks == {
   "crop-offset",           \* C08-E3: crop_rect reads the cells of a layer with an offset from the wrong position
   "crop-protected-empty",  \* C08-E3: crop_rect empties locked / hidden / alpha-locked layers
   "stamp-offset",          \* C08-E4: stamp_layer_down adds the offset of the layer below instead of subtracting it
+  "stamp-bottom-panic",    \* C08-E4: stamp_layer_down on the bottom layer (or with a stale current-layer field) panics
   "neg-area-panic",        \* C08-E5: a selection that does not touch the current layer makes flip / justify / center panic
   "scroll-short-panic"     \* C08-E6: scroll_area_* panic on a layer that stores fewer rows than its height
 }
@@ -301,11 +302,13 @@ Paste(d, x, y, w, h, g) ==
 \* stamp the current layer into the one below it (the current layer stays)
 StampDown(d) ==
   IF NoLayer(d) THEN Res("err", d)
-  ELSE IF d.cur = 0 \/ d.cur > Len(d.layers) THEN Res("panic", d)      \* (!) the layer below is layers[cur - 1], raw cur, no check
-  ELSE LET S == Cur(d)  B == d.layers[d.cur]
-           dx == IF Q("stamp-offset") THEN S.ox + B.ox ELSE S.ox - B.ox  \* (!) C08-E4
-           dy == IF Q("stamp-offset") THEN S.oy + B.oy ELSE S.oy - B.oy IN
-       Res("ok", [d EXCEPT !.layers[d.cur] = StampL(B, S, dx, dy)])
+  ELSE LET below == IF Q("stamp-bottom-panic") THEN d.cur ELSE CurIx(d) IN     \* (!) C08-E4: the raw field, not the clamped index
+       IF below = 0 THEN Res(IF Q("stamp-bottom-panic") THEN "panic" ELSE "err", d)      \* (!) C08-E4: cur - 1 without a check
+       ELSE IF below > Len(d.layers) THEN Res("panic", d)
+       ELSE LET S == Cur(d)  B == d.layers[below]
+                dx == IF Q("stamp-offset") THEN S.ox + B.ox ELSE S.ox - B.ox  \* (!) C08-E4
+                dy == IF Q("stamp-offset") THEN S.oy + B.oy ELSE S.oy - B.oy IN
+            Res("ok", [d EXCEPT !.layers[below] = StampL(B, S, dx, dy)])
 
 \* ---------------------------------------------------------------------------------------------- dispatcher
 \* o = [op, a (integer arguments), c (a cell or a grid where the operation takes one)]; fx, fy = glyph maps of flip_x / flip_y
